@@ -59,7 +59,12 @@ def run_crosshair(fn, timeout, per_path=None):
     t0 = time.time()
     c0 = time.process_time()
     checkables = analyze_function(fn, opts)
-    msgs = run_checkables(checkables)
+    try:
+        msgs = run_checkables(checkables)
+    except Exception as e:  # CrossHairInternal and friends: an engine limitation, not a property verdict
+        return {"engine": "crosshair", "verdict": "unknown", "paths": int(stats.get("num_paths", 0)),
+                "wall_s": round(time.time() - t0, 2), "solver_s": round(time.process_time() - c0, 2), "args": None,
+                "message": "engine internal error after %d paths (inconclusive): %s: %s" % (stats.get("num_paths", 0), type(e).__name__, str(e)[:300])}
     out = {
         "engine": "crosshair",
         "paths": int(stats.get("num_paths", 0)),
